@@ -4,10 +4,12 @@ import (
 	"context"
 	"fmt"
 	"runtime"
+	"sync"
 	"testing"
 	"time"
 
 	"github.com/twmb/franz-go/pkg/kgo"
+	"github.com/twmb/franz-go/pkg/kmsg"
 
 	"verif/h/bubble"
 	"verif/h/ev"
@@ -41,4 +43,88 @@ func TestRegressAddPartitionsThenClose(t *testing.T) {
 		ev.Case(fmt.Sprintf("regress-addpartitions-then-close-after-%d-yields", i%6), true)
 	}
 	ev.Class("regression-replays")
+}
+
+// TestRegressEagerOffsetFetchAnsweredDuringRevoke replays the history behind the race found by
+// TestRaceGroup (range balancer, slow OnPartitionsRevoked, a subscription change right after a
+// join): an eager member's session ends (forced rejoin) while the session's OffsetFetch is
+// still unanswered. The revoke invalidates every partition and runs the (slow) user callback;
+// the OffsetFetch answer arrives meanwhile and used to ASSIGN the partitions it was fetched
+// for, after they had been revoked. The member then kept fetching partitions it had given up
+// (records were returned by polls between OnPartitionsRevoked and the next
+// OnPartitionsAssigned), and the next session fetched offsets for the same partitions and
+// loaded them into cursors that were in use: handleListOrEpochResults wrote cursor offsets
+// that an in-flight fetch was about to write too (the data race the detector reported).
+// The broker-side delay of OffsetFetch and the slow callback make the window deterministic;
+// the oracle is the race detector plus "no records are returned between the call of
+// OnPartitionsRevoked (for everything, eager) and the next OnPartitionsAssigned".
+func TestRegressEagerOffsetFetchAnsweredDuringRevoke(t *testing.T) {
+	for _, bal := range []string{"range", "roundrobin", "sticky"} {
+		var violation string
+		bubble.Run(t, nil, func(e *bubble.Env) {
+			e.StartCluster(bubble.ClusterOpts{Brokers: 1, Topics: map[string]int32{"a": 2, "b": 1}})
+			prod := e.NewClient(kgo.RecordPartitioner(kgo.ManualPartitioner()))
+			for i := 0; i < 20; i++ {
+				if err := prod.ProduceSync(context.Background(), &kgo.Record{Topic: "a", Partition: int32(i % 2), Value: []byte("v")}).FirstErr(); err != nil {
+					panic("VERIF-INFRA: prefill: " + err.Error())
+				}
+			}
+			t0 := time.Now()
+			var mu sync.Mutex
+			owned := false // between OnPartitionsAssigned and the start of OnPartitionsRevoked
+			fetches := 0
+			e.Cluster.ControlKey(int16(kmsg.OffsetFetch), func(kmsg.Request) (kmsg.Response, error, bool) {
+				e.Cluster.KeepControl()
+				mu.Lock()
+				fetches++
+				first := fetches == 1
+				mu.Unlock()
+				if first {
+					e.Cluster.SleepControl(func() { time.Sleep(time.Second) }) // answered while the revoke callback runs
+				}
+				return nil, nil, false
+			})
+			var b kgo.GroupBalancer
+			switch bal {
+			case "range":
+				b = kgo.RangeBalancer()
+			case "roundrobin":
+				b = kgo.RoundRobinBalancer()
+			default:
+				b = kgo.StickyBalancer()
+			}
+			cl := e.NewClient(kgo.ConsumerGroup("g41e"), kgo.ConsumeTopics("a"), kgo.Balancers(b), kgo.ConsumeResetOffset(kgo.NewOffset().AtStart()), kgo.FetchMaxWait(100*time.Millisecond),
+				kgo.HeartbeatInterval(300*time.Millisecond), kgo.SessionTimeout(20*time.Second),
+				kgo.OnPartitionsAssigned(func(context.Context, *kgo.Client, map[string][]int32) {
+					mu.Lock()
+					owned = true
+					mu.Unlock()
+				}),
+				kgo.OnPartitionsRevoked(func(context.Context, *kgo.Client, map[string][]int32) {
+					// the client has stopped fetching and dropped what it had buffered before it calls
+					// this: nothing of these partitions may be returned from now on
+					mu.Lock()
+					owned = false
+					mu.Unlock()
+					time.Sleep(3 * time.Second) // an application flushing its state
+				}))
+			time.Sleep(200 * time.Millisecond) // joined, assigned, OffsetFetch in flight (held for 1 s)
+			cl.AddConsumeTopics("b")           // subscription change: forced rejoin, the session ends
+			for dl := time.Now().Add(15 * time.Second); time.Now().Before(dl); {
+				pc, cancel := context.WithTimeout(context.Background(), 100*time.Millisecond)
+				fs := cl.PollFetches(pc)
+				cancel()
+				mu.Lock()
+				o := owned
+				mu.Unlock()
+				if n := fs.NumRecords(); n > 0 && !o && violation == "" {
+					violation = fmt.Sprintf("%s balancer: a poll returned %d records at t=%v although OnPartitionsRevoked had been called for every partition and no OnPartitionsAssigned had followed", bal, n, time.Since(t0).Round(time.Millisecond))
+				}
+			}
+		})
+		ev.Case("regress-eager-offsetfetch-answered-during-revoke-"+bal, true)
+		if violation != "" {
+			t.Fatalf("%s", violation)
+		}
+	}
 }
